@@ -1,14 +1,15 @@
 """C15 Trigger formulas recalculate exactly when configured."""
 from mc.histprop import HistProp
 from mc import worlds as W
-from mc.monitors2 import Triggers
+from mc.monitors2 import Triggers, TriggerReplay
 
 LEVEL = 'model_checking'
 NAMES = ['W_trig']
 D = W.depths_for(NAMES, quick=2, thorough=4)
-P = HistProp('C15', lambda t: W.make(NAMES), lambda w, t: [Triggers()], D,
+P = HistProp('C15', lambda t: W.make(NAMES), lambda w, t: [Triggers(), TriggerReplay()], D,
              rule='all histories over W_trig, whose trigger formulas are all `(value or 0)+1` so each '
                   'cell counts its own recalculations; three-valued reference model per (row, '
                   'trigger column, bundle): MUST (+1), MUST-NOT (+0), explicit value kept; MAY cases '
-                  '(same-value writes, configuration changed in the bundle) are not asserted')
+                  '(same-value writes, configuration changed in the bundle) are not asserted; plus undo then redo '
+                  'of every bundle: no trigger cell may differ from its recorded value')
 run, replay = P.run, P.replay
